@@ -13,6 +13,8 @@ Fully structural (tables extracted from writer, loader, schemas and enums, then 
   K6  every enum member is handled by the writer, the loader dispatch, the validator's schema map, the
       schema enum / const and set_design
   K7  the sections written = required by file_structure.schema.json = subscripted by the loader
+  K8  names are mapped to enum members by equality (or membership in a collection), never by `name in <string>`:
+      a name that contains another member's name would be written to the file as that member
 
 Not decided: float round trip of degrees -> radians -> degrees; "running it produces the same design" (C13).
 """
@@ -364,18 +366,18 @@ def check(prog: Program, tier: str) -> Result:
     _check_loader(prog, res, lfi, sec_tabs)
     _check_roundtrip(prog, res, sec_tabs)
     _check_enums(prog, res, wfi, lfi)
-    # K6 names are mapped to enum members by equality with the member's name, never as substrings
+    # K8 names are mapped to enum members by equality with the member's name, never as substrings
     from ..memo import substring_tests
 
     n_sub = 0
     for f_, n_, rtxt in substring_tests(prog):
         if f_.module.endswith((".media", ".geometry", ".simulation", ".enums", ".borehole", ".design", ".borehole_heat_exchangers")) or (f_.module.endswith(".manager") and f_.cls):
             n_sub += 1
-            res.ob("K6", f"{f_.qualname}: '{ast.unparse(n_)[:60]}' compares names exactly", False, prog.loc(f_, n_))
-            res.violation("K6", f"substring|{f_.qualname}|{ast.unparse(n_)[:60]}", prog.loc(f_, n_), f_.qualname,
+            res.ob("K8", f"{f_.qualname}: '{ast.unparse(n_)[:60]}' compares names exactly", False, prog.loc(f_, n_))
+            res.violation("K8", f"substring|{f_.qualname}|{ast.unparse(n_)[:60]}", prog.loc(f_, n_), f_.qualname,
                           f"'{ast.unparse(n_)[:80]}' is a substring test ({rtxt[:40]} is a string): a name that contains another member's name is mapped to that member, "
                           "so the file that is written names something else than what was configured")
-    res.ob("K6", "configuration names are mapped to enum members by equality or membership in a collection", n_sub == 0, "ghedesigner/media.py")
+    res.ob("K8", "configuration names are mapped to enum members by equality or membership in a collection", n_sub == 0, "ghedesigner/media.py")
     return res
 
 
@@ -1071,7 +1073,7 @@ def _check_enums(prog: Program, res: Result, wfi, lfi):
 
 VARIANTS = [
     Variant("fluid name looked up by substring: METHYLALCOHOL becomes ETHYLALCOHOL (seeded C17_e)", "break",
-            [("ghedesigner.media", '        if fluid_str == FluidType.ETHYLALCOHOL.name:\n            self.fluid_type = FluidType.ETHYLALCOHOL\n        elif fluid_str == FluidType.ETHYLENEGLYCOL.name:\n            self.fluid_type = FluidType.ETHYLENEGLYCOL\n        elif fluid_str == FluidType.METHYLALCOHOL.name:\n            self.fluid_type = FluidType.METHYLALCOHOL\n        elif fluid_str == FluidType.PROPYLENEGLYCOL.name:\n            self.fluid_type = FluidType.PROPYLENEGLYCOL\n        elif fluid_str == FluidType.WATER.name:\n            self.fluid_type = FluidType.WATER\n        else:\n', "        for fluid_type in FluidType:\n            if fluid_type.name in fluid_str:\n                self.fluid_type = fluid_type\n                break\n        else:\n")], "K6"),
+            [("ghedesigner.media", '        if fluid_str == FluidType.ETHYLALCOHOL.name:\n            self.fluid_type = FluidType.ETHYLALCOHOL\n        elif fluid_str == FluidType.ETHYLENEGLYCOL.name:\n            self.fluid_type = FluidType.ETHYLENEGLYCOL\n        elif fluid_str == FluidType.METHYLALCOHOL.name:\n            self.fluid_type = FluidType.METHYLALCOHOL\n        elif fluid_str == FluidType.PROPYLENEGLYCOL.name:\n            self.fluid_type = FluidType.PROPYLENEGLYCOL\n        elif fluid_str == FluidType.WATER.name:\n            self.fluid_type = FluidType.WATER\n        else:\n', "        for fluid_type in FluidType:\n            if fluid_type.name in fluid_str:\n                self.fluid_type = fluid_type\n                break\n        else:\n")], "K8"),
     Variant("fluid name looked up in a loop over the enum, by equality", "benign",
             [("ghedesigner.media", '        if fluid_str == FluidType.ETHYLALCOHOL.name:\n            self.fluid_type = FluidType.ETHYLALCOHOL\n        elif fluid_str == FluidType.ETHYLENEGLYCOL.name:\n            self.fluid_type = FluidType.ETHYLENEGLYCOL\n        elif fluid_str == FluidType.METHYLALCOHOL.name:\n            self.fluid_type = FluidType.METHYLALCOHOL\n        elif fluid_str == FluidType.PROPYLENEGLYCOL.name:\n            self.fluid_type = FluidType.PROPYLENEGLYCOL\n        elif fluid_str == FluidType.WATER.name:\n            self.fluid_type = FluidType.WATER\n        else:\n', "        for fluid_type in FluidType:\n            if fluid_type.name == fluid_str:\n                self.fluid_type = fluid_type\n                break\n        else:\n")]),
     Variant("coaxial conductivities exchanged when the file is written (seeded C17_f)", "break",
